@@ -218,6 +218,11 @@ pub(super) fn merge_create_node(
     let external_id = ExternalId::from(
         *created_count as u64 + chrono::Utc::now().timestamp_nanos_opt().unwrap_or(0) as u64,
     );
+#[cfg(feature = "verif-hooks")]
+let external_id = match nervusdb_storage::verif::now_nanos() {
+    Some(t) => ExternalId::from(*created_count as u64 + t as u64),
+    None => external_id,
+};
     let label_id = if let Some(label) = node_pat.labels.first() {
         txn.get_or_create_label_id(label)?
     } else {
